@@ -23,18 +23,22 @@ pub enum Event {
   SetFail(Rid, bool),
   /// one session requiring the roots in order
   TopDown(Vec<Tid>),
+  /// one session requiring the roots in order, each require with its own `catch_unwind`: the session is used
+  /// again after a caught panic
+  TopDownKeep(Vec<Tid>),
   /// one session: optional requires, bottom-up build reporting the resources in order, optional requires
   /// `builds`: how many bottom-up builds (each reporting `reported`) the session runs one after the other (1 or 2)
   BottomUp { pre: Vec<Tid>, reported: Vec<Rid>, then: Vec<Tid>, builds: u8 },
 }
 
 impl Event {
-  pub fn is_build(&self) -> bool { matches!(self, Event::TopDown(_) | Event::BottomUp { .. }) }
+  pub fn is_build(&self) -> bool { matches!(self, Event::TopDown(_) | Event::TopDownKeep(_) | Event::BottomUp { .. }) }
   pub fn to_string(&self) -> String {
     match self {
       Event::Set(r, c) => format!("Set(r{},{})", r, cell_to_string(*c)),
       Event::SetFail(r, b) => format!("SetFail(r{},{})", r, b),
       Event::TopDown(roots) => format!("TopDown[{}]", roots.iter().map(|t| format!("T{}", t)).collect::<Vec<_>>().join(",")),
+      Event::TopDownKeep(roots) => format!("TopDownKeepSession[{}]", roots.iter().map(|t| format!("T{}", t)).collect::<Vec<_>>().join(",")),
       Event::BottomUp { pre, reported, then, builds } => format!(
         "BottomUp{}{{pre:[{}],reported:[{}],then:[{}]}}", match *builds { 2 => "x2", 3 => "-split", _ => "" },
         pre.iter().map(|t| format!("T{}", t)).collect::<Vec<_>>().join(","),
@@ -47,6 +51,7 @@ impl Event {
       Event::Set(r, c) => json!({"ev": "Set", "r": r, "v": cell_to_string(*c)}),
       Event::SetFail(r, b) => json!({"ev": "SetFail", "r": r, "v": b}),
       Event::TopDown(roots) => json!({"ev": "TopDown", "roots": roots}),
+      Event::TopDownKeep(roots) => json!({"ev": "TopDownKeep", "roots": roots}),
       Event::BottomUp { pre, reported, then, builds } => json!({"ev": "BottomUp", "pre": pre, "reported": reported, "then": then, "builds": builds}),
     }
   }
@@ -62,6 +67,7 @@ impl Event {
       }
       "SetFail" => Ok(Event::SetFail(r, v.get("v").and_then(|x| x.as_bool()).ok_or("v")?)),
       "TopDown" => Ok(Event::TopDown(list("roots"))),
+      "TopDownKeep" => Ok(Event::TopDownKeep(list("roots"))),
       "BottomUp" => Ok(Event::BottomUp { pre: list("pre"), reported: list("reported"), then: list("then"), builds: v.get("builds").and_then(|x| x.as_u64()).unwrap_or(1) as u8 }),
       o => Err(format!("event {}", o)),
     }
@@ -104,6 +110,8 @@ pub enum Outcome {
   /// outputs of the required roots, in order (pre roots, then roots)
   Returned(Vec<u8>),
   Panicked(PanicInfo),
+  /// a kept session: per root the output, or None where that require aborted (panics in order)
+  Partial(Vec<Option<u8>>, Vec<PanicInfo>),
 }
 
 /// Everything observed in one step.
@@ -208,6 +216,28 @@ impl Live {
           Ok((outs, errs)) => { dep_errors = errs; Outcome::Returned(outs) }
           Err(_) => Outcome::Panicked(take_last_panic().unwrap_or(PanicInfo { msg: "<unknown>".into(), file: String::new(), line: 0 })),
         }
+      }
+      Event::TopDownKeep(roots) => {
+        let pie = &mut self.pie;
+        let mut session = pie.new_session();
+        let mut outs: Vec<Option<u8>> = Vec::new();
+        let mut panics: Vec<PanicInfo> = Vec::new();
+        for t in roots {
+          log(Ev::RootReq(*t));
+          let res = catch_unwind(AssertUnwindSafe(|| session.require(&VTask(*t))));
+          match res {
+            Ok(o) => { log(Ev::RootRet(*t, o)); outs.push(Some(o)); }
+            Err(_) => {
+              let p = take_last_panic().unwrap_or(PanicInfo { msg: "<unknown>".into(), file: String::new(), line: 0 });
+              log(Ev::RootAbort(*t, p.msg.clone(), p.file.clone(), p.line));
+              panics.push(p);
+              outs.push(None);
+            }
+          }
+        }
+        dep_errors = session.dependency_check_errors().map(|e| format!("{}", e)).collect();
+        drop(session);
+        if panics.is_empty() { Outcome::Returned(outs.into_iter().map(|o| o.unwrap()).collect()) } else { Outcome::Partial(outs, panics) }
       }
       Event::BottomUp { pre, reported, then, builds } => {
         let pie = &mut self.pie;
